@@ -116,6 +116,50 @@ func (c *Ctx) safeEncoded(e ast.Expr, defs map[types.Object][]ast.Expr, depth in
 		return true, ""
 	}
 	switch x := e.(type) {
+	case *ast.IndexExpr:
+		// an element of a local array/slice of encoded fragments: every element store of that variable is safe
+		if id, ok := unparen(x.X).(*ast.Ident); ok {
+			o := c.objOf(id)
+			if v, isVar := o.(*types.Var); isVar && v.Parent() != c.Types.Scope() {
+				if fd := c.funcContaining(x.Pos()); fd != nil {
+					stores, allOK, why := 0, true, ""
+					ast.Inspect(fd.Body, func(n ast.Node) bool {
+						as, ok := n.(*ast.AssignStmt)
+						if !ok || len(as.Lhs) != len(as.Rhs) {
+							return true
+						}
+						for i, l := range as.Lhs {
+							if ix, ok := unparen(l).(*ast.IndexExpr); ok {
+								if lid, ok := unparen(ix.X).(*ast.Ident); ok && c.objOf(lid) == o {
+									stores++
+									if good, w := c.safeEncoded(as.Rhs[i], defs, depth+1, bufOK); !good {
+										allOK, why = false, w
+									}
+								}
+							}
+						}
+						return true
+					})
+					// the variable itself must start empty (declared without a value) or from safe values
+					for _, d := range defs[o] {
+						if d == nil {
+							continue
+						}
+						if call, ok := unparen(d).(*ast.CallExpr); ok && c.isBuiltin(call, "make") {
+							continue
+						}
+						allOK, why = false, "the fragment table "+id.Name+" is initialised from "+exprString(d)
+					}
+					if stores > 0 && allOK {
+						return true, ""
+					}
+					if !allOK {
+						return false, why
+					}
+				}
+			}
+		}
+		return false, "element " + exprString(x) + " of a value that is not a local table of encoder results"
 	case *ast.Ident:
 		o := c.objOf(x)
 		if v, ok := o.(*types.Var); ok && v.Parent() == c.Types.Scope() {
@@ -358,9 +402,25 @@ func (c *Ctx) enclosingIfs(fd *ast.FuncDecl, target ast.Node) []*ast.IfStmt {
 // prefixFilter finds strings.HasPrefix(<expr>, "<const>") in a condition; lowered reports
 // whether the tested value went through strings.ToLower.
 func (c *Ctx) prefixFilter(fd *ast.FuncDecl, cond ast.Expr) (prefix string, lowered bool, found bool) {
+	return c.prefixFilterD(fd, cond, 0)
+}
+
+func (c *Ctx) prefixFilterD(fd *ast.FuncDecl, cond ast.Expr, depth int) (prefix string, lowered bool, found bool) {
 	defs := c.localDefs(fd)
 	ast.Inspect(cond, func(n ast.Node) bool {
 		call, ok := n.(*ast.CallExpr)
+		if ok && depth < 2 {
+			// a package predicate over the key whose body is one return statement
+			if g, isF := c.callee(call).(*types.Func); isF && g.Pkg() == c.Types {
+				if gfd := c.decl(g); gfd != nil && gfd.Body != nil && len(gfd.Body.List) == 1 {
+					if rs, isR := gfd.Body.List[0].(*ast.ReturnStmt); isR && len(rs.Results) == 1 {
+						if p, l, f := c.prefixFilterD(gfd, rs.Results[0], depth+1); f {
+							prefix, lowered, found = p, l, true
+						}
+					}
+				}
+			}
+		}
 		if !ok || !c.isPkgFunc(call, "strings", "HasPrefix") || len(call.Args) != 2 {
 			return true
 		}
@@ -493,12 +553,12 @@ func ruleFragmentDisjoint(c *Ctx) {
 					}
 					stores++
 					okStore := false
-					for _, i := range c.enclosingIfs(fd, as) {
-						if i.Pos() < rs.Pos() {
+					for _, cl := range c.literalsAt(fd, as) {
+						if cl.neg || cl.e.Pos() < rs.Pos() {
 							continue
 						}
-						pre, low, found := c.prefixFilter(fd, i.Cond)
-						if found && pre == fl.want && (low || !fl.lower) && as.Pos() >= i.Body.Pos() && as.End() <= i.Body.End() {
+						pre, low, found := c.prefixFilter(fd, cl.e)
+						if found && pre == fl.want && (low || !fl.lower) {
 							okStore = true
 						}
 					}
@@ -572,6 +632,105 @@ func ruleFragmentDisjoint(c *Ctx) {
 			badWriters = append(badWriters, c.funcName(fd))
 		}
 	}
+	// ExtraProps assigned as a whole from a result of an owned helper that partitions the generic map: the
+	// stores into the map that helper returns are the fills
+	type extraFill struct {
+		fd *ast.FuncDecl
+		as *ast.AssignStmt
+	}
+	var helperFills []extraFill
+	var helperGenMap types.Object
+	helperPos := token.NoPos
+	if u != nil {
+		ast.Inspect(u.Body, func(n ast.Node) bool {
+			as, ok := n.(*ast.AssignStmt)
+			if !ok || len(as.Rhs) != 1 {
+				return true
+			}
+			call, ok := unparen(as.Rhs[0]).(*ast.CallExpr)
+			if !ok {
+				return true
+			}
+			g, _ := c.callee(call).(*types.Func)
+			if g == nil || g.Pkg() != c.Types {
+				return true
+			}
+			gfd := c.decl(g)
+			if gfd == nil || gfd.Body == nil || !ownedByDecoder(gfd) {
+				return true
+			}
+			for i, l := range as.Lhs {
+				p, ok := c.apath(l)
+				if !ok || len(p.Steps) == 0 || lastStep(p) != "ExtraProps" {
+					continue
+				}
+				resIdx := 0
+				if len(as.Lhs) > 1 {
+					resIdx = i
+				}
+				var ret types.Object
+				consistent := true
+				ast.Inspect(gfd.Body, func(m ast.Node) bool {
+					if _, isLit := m.(*ast.FuncLit); isLit {
+						return false
+					}
+					if rs, ok := m.(*ast.ReturnStmt); ok && resIdx < len(rs.Results) {
+						id, isId := unparen(rs.Results[resIdx]).(*ast.Ident)
+						if !isId || isNilIdent(c, rs.Results[resIdx]) {
+							if !isNilIdent(c, rs.Results[resIdx]) {
+								consistent = false
+							}
+							return true
+						}
+						if ret == nil {
+							ret = c.objOf(id)
+						} else if ret != c.objOf(id) {
+							consistent = false
+						}
+					}
+					return true
+				})
+				if ret == nil || !consistent {
+					continue
+				}
+				ast.Inspect(gfd.Body, func(m ast.Node) bool {
+					rs, ok := m.(*ast.RangeStmt)
+					if !ok {
+						return true
+					}
+					has := false
+					ast.Inspect(rs.Body, func(k ast.Node) bool {
+						if a2, ok := k.(*ast.AssignStmt); ok {
+							for _, l2 := range a2.Lhs {
+								if ix, ok := unparen(l2).(*ast.IndexExpr); ok {
+									if id, ok := unparen(ix.X).(*ast.Ident); ok && c.objOf(id) == ret {
+										helperFills = append(helperFills, extraFill{gfd, a2})
+										has = true
+									}
+								}
+							}
+						}
+						return true
+					})
+					if has {
+						if id, ok := unparen(rs.X).(*ast.Ident); ok {
+							if pi := c.paramIndex(gfd, c.objOf(id)); pi >= 0 && pi < len(call.Args) {
+								if aid, ok := unparen(call.Args[pi]).(*ast.Ident); ok {
+									helperGenMap = c.objOf(aid)
+									helperPos = call.Pos()
+								}
+							}
+						}
+					}
+					return true
+				})
+			}
+			return true
+		})
+		if len(helperFills) > 0 && helperGenMap != nil {
+			writers = append(writers, c.funcName(u)+"(via helper)")
+		}
+	}
 	c.ob(rule, "Schema.ExtraProps:writers", token.NoPos, len(writers) > 0 && len(badWriters) == 0, fmt.Sprintf("ExtraProps is written by %v; only Schema.UnmarshalJSON (and helpers of its own) filter its keys", badWriters))
 	if u != nil {
 		c.saw(c.funcName(u))
@@ -614,13 +773,19 @@ func ruleFragmentDisjoint(c *Ctx) {
 			}
 			return true
 		})
-		if fillLoop == nil || genMap == nil {
+		fillPos := token.NoPos
+		if fillLoop != nil && genMap != nil {
+			fillPos = fillLoop.Pos()
+		} else if len(helperFills) > 0 && helperGenMap != nil {
+			genMap, fillPos = helperGenMap, helperPos
+		}
+		if fillPos == token.NoPos {
 			c.undecided(rule, "Schema.UnmarshalJSON:fill-loop", u.Pos(), "cannot find the loop that fills ExtraProps from the generic map")
 		} else {
 			delAll := false
 			ast.Inspect(u.Body, func(n ast.Node) bool {
 				rs, ok := n.(*ast.RangeStmt)
-				if !ok || rs.Pos() > fillLoop.Pos() {
+				if !ok || rs.Pos() > fillPos {
 					return true
 				}
 				call, ok := unparen(rs.X).(*ast.CallExpr)
@@ -650,7 +815,7 @@ func ruleFragmentDisjoint(c *Ctx) {
 			})
 			handDeleted := map[string]bool{}
 			ast.Inspect(u.Body, func(n ast.Node) bool {
-				if dc, ok := n.(*ast.CallExpr); ok && c.isBuiltin(dc, "delete") && len(dc.Args) == 2 && dc.Pos() < fillLoop.Pos() {
+				if dc, ok := n.(*ast.CallExpr); ok && c.isBuiltin(dc, "delete") && len(dc.Args) == 2 && dc.Pos() < fillPos {
 					if m0, ok := unparen(dc.Args[0]).(*ast.Ident); ok && c.objOf(m0) == genMap {
 						if k, ok := c.constString(dc.Args[1]); ok {
 							handDeleted[k] = true
@@ -667,23 +832,28 @@ func ruleFragmentDisjoint(c *Ctx) {
 				"every tagged member name of Schema must be deleted from the generic map before the rest is parked in ExtraProps, or a keyword is emitted twice")
 			// at every ExtraProps store (in the loop or in the owned helper) the key is known not to be an x- key
 			routed, nstores := true, 0
+			var fills []extraFill
 			for _, sf := range storeFuncs {
 				for _, as := range storesExtra(sf) {
-					nstores++
-					excluded := false
-					for _, cl := range c.literalsAt(sf, as) {
-						pre, low, found := c.prefixFilter(sf, cl.e)
-						if found && pre == "x-" && low && cl.neg {
-							excluded = true
-						}
+					fills = append(fills, extraFill{sf, as})
+				}
+			}
+			fills = append(fills, helperFills...)
+			for _, fl := range fills {
+				nstores++
+				excluded := false
+				for _, cl := range c.literalsAt(fl.fd, fl.as) {
+					pre, low, found := c.prefixFilter(fl.fd, cl.e)
+					if found && pre == "x-" && low && cl.neg {
+						excluded = true
 					}
-					if !excluded {
-						routed = false
-					}
+				}
+				if !excluded {
+					routed = false
 				}
 			}
 			routed = routed && nstores > 0
-			c.ob(rule, "Schema.UnmarshalJSON:x-routing", fillLoop.Pos(), routed,
+			c.ob(rule, "Schema.UnmarshalJSON:x-routing", fillPos, routed,
 				"x- keys must be routed to Extensions and skipped, or they are emitted twice (extensions fragment and ExtraProps fragment)")
 		}
 	}
@@ -1072,4 +1242,14 @@ func (c *Ctx) uniqueKeyFields(sliceT types.Type) map[string]bool {
 		}
 	}
 	return out
+}
+
+// funcContaining returns the function declaration whose body contains the position.
+func (c *Ctx) funcContaining(p token.Pos) *ast.FuncDecl {
+	for _, fd := range c.allFuncDecls() {
+		if fd.Body != nil && fd.Body.Pos() <= p && p <= fd.Body.End() {
+			return fd
+		}
+	}
+	return nil
 }
